@@ -108,6 +108,35 @@ Example C03_no_color_params_nonvacuous :
   /\ no_color_params_b ([27] ++ lit "[1;38;5;9mx") = false /\ no_color_params_b ([27] ++ lit "[1;91mx") = false.
 Proof. vm_compute. repeat split. Qed.
 
+(* (4b) the NO_COLOR convention: Console(...) without the no_color keyword has colour off exactly when
+        the variable NO_COLOR is PRESENT in the environment, whatever its value (empty, "0", ...) -- for
+        every other keyword and environment (force_terminal, colour system incl. "auto", legacy_windows,
+        TERM, COLORTERM); the stream then carries no colour parameter *)
+Theorem C03_no_color_convention : forall arg e,
+  no_color_convention_b arg (match e_no_color e with Some _ => true | None => false end) (no_color_of arg e) = true.
+Proof. exact no_color_env_convention. Qed.
+Print Assumptions C03_no_color_convention.
+
+Theorem C03_no_color_env_params : forall ft tty cs lw e v fx fc segs,
+  e_no_color e = Some v ->
+  let k := cfg_of_env ft tty cs None lw e fx fc in
+  k_no_color k = true
+  /\ (segs_ok k segs = true -> forallb ctl_colorless segs = true ->
+      exists bytes, render_buffer k segs = Ok bytes /\ no_color_params_b bytes = true).
+Proof. exact no_color_env_params. Qed.
+Print Assumptions C03_no_color_env_params.
+
+Example C03_no_color_env_nonvacuous :      (* NO_COLOR="" counts; TERM/COLORTERM detection of "auto" *)
+  let e := mkEnv (Some []) (Some (lit " TrueColor ")) (Some (lit "xterm-256color")) in
+  cfg_of_env (Some true) false CSA_auto None None e true true = mkCfg (Some CS_TRUECOLOR) true true false true true
+  /\ k_system (cfg_of_env (Some true) false CSA_auto None None (mkEnv None None (Some (lit "xterm-256color"))) true true) = Some CS_EIGHT_BIT
+  /\ k_system (cfg_of_env (Some true) false CSA_auto None None (mkEnv None None (Some (lit "DUMB"))) true true) = None
+  /\ k_system (cfg_of_env None false CSA_auto None None e true true) = None
+  /\ k_no_color (cfg_of_env (Some true) false CSA_auto (Some false) None e true true) = false
+  /\ render_buffer (cfg_of_env (Some true) false (CSA_name CS_STANDARD) None None e true true)
+                   [mkASeg (lit "x") (Some ex_off) [] None false] = Ok ([27] ++ lit "[2mx" ++ [27] ++ lit "[0m").
+Proof. vm_compute. repeat split. Qed.
+
 (* (5) not a terminal: no control function other than SGR / OSC 8 reaches the file, and the stream
        means the non-control segments only.  Proved for k_fix_ctl = true without restriction; for the
        code as found (k_fix_ctl = false) `segs_ok` excludes control segments that carry a truthy
@@ -279,6 +308,9 @@ Print Assumptions C03_style_parameters_mean_style.
 Example C03_memo_keyed_today : ANSI_MEMO_KEYED_BY_SYSTEM = true.
 Proof. reflexivity. Qed.
 Example C03_control_guard_today : RENDER_BUFFER_CONTROL_GUARD_FIRST = true.
+Proof. reflexivity. Qed.
+(* Console.__init__ derives no_color from the PRESENCE of NO_COLOR (statement checked verbatim by the translator) *)
+Example C03_no_color_by_presence_today : NO_COLOR_BY_PRESENCE = true.
 Proof. reflexivity. Qed.
 (* which derivation inherits the memo: copy and update_link do, without_color and + do not *)
 Example C03_memo_carrying_today :
